@@ -376,6 +376,12 @@ impl Index {
                 continue;
             }
             text.push_str(&f.text[pos..a.start]);
+            if a.start == a.end {
+                text.push_str("pub ");
+                dropped.push("private field made pub".to_string());
+                pos = a.end;
+                continue;
+            }
             let at = &f.text[a.clone()];
             dropped.push(crate::one_line_pub(at));
             for _ in 0..at.bytes().filter(|b| *b == b'\n').count() {
@@ -403,6 +409,14 @@ fn find_types<'a>(items: &'a [syn::Item], name: &str, f: &'a SrcFile, out: &mut 
                 let mut attrs: Vec<_> = s.attrs.iter().map(|a| a.span().byte_range()).collect();
                 for fld in s.fields.iter() {
                     attrs.extend(fld.attrs.iter().map(|a| a.span().byte_range()));
+                    // N1: a private field becomes pub (zero-width marker range start..start)
+                    if matches!(fld.vis, syn::Visibility::Inherited) {
+                        let at = match &fld.ident {
+                            Some(id) => id.span().byte_range().start,
+                            None => fld.ty.span().byte_range().start,
+                        };
+                        attrs.push(at..at);
+                    }
                 }
                 out.push((f, s.span().byte_range(), attrs));
             }
